@@ -28,6 +28,7 @@ type c09DFeed struct {
 	from     []bool // true: from a foreign address
 	eofReads int
 	onRead   func()
+	wrote    int // datagrams the endpoint sent
 }
 
 func (f *c09DFeed) ReadFrom(p []byte) (int, net.Addr, error) {
@@ -50,7 +51,7 @@ func (f *c09DFeed) ReadFrom(p []byte) (int, net.Addr, error) {
 	}
 	return n, vfDAddr("10.0.0.2:2"), nil
 }
-func (f *c09DFeed) WriteTo(p []byte, a net.Addr) (int, error) { return len(p), nil }
+func (f *c09DFeed) WriteTo(p []byte, a net.Addr) (int, error) { f.wrote++; return len(p), nil }
 func (f *c09DFeed) Close() error                              { f.dgrams = nil; return nil }
 func (f *c09DFeed) LocalAddr() net.Addr                       { return vfDAddr("10.0.0.1:1") }
 func (f *c09DFeed) SetDeadline(time.Time) error               { return nil }
@@ -376,6 +377,16 @@ func c09DFuzz(f *testing.F, client bool) {
 }
 
 func init() {
+	vfRegisterReplay("C17e-stale-coverage", func(raw json.RawMessage) error {
+		var c c17eCase
+		if err := json.Unmarshal(raw, &c); err != nil {
+			return err
+		}
+		if sig, msg := c17eRun(c); sig != "" {
+			return fmt.Errorf("%s: %s", sig, msg)
+		}
+		return nil
+	})
 	vfRegisterReplay("C09-feed", func(raw json.RawMessage) error {
 		var c c09DFeedCase
 		if err := json.Unmarshal(raw, &c); err != nil {
@@ -386,4 +397,95 @@ func init() {
 		}
 		return nil
 	})
+}
+
+
+// ---------------------------------------------------------------------------- C17e: coverage left behind by another message
+
+type c17eCase struct {
+	AType  int  `json:"atype"`  // handshake type of the abandoned message (1 = ClientHello, 20 = Finished)
+	ATotal int  `json:"atotal"` // its announced length relative to the ClientHello's: 0 same, +8, -8
+	Front  bool `json:"front"`  // the abandoned fragment covers the first 4 bytes (otherwise the last 4 of the shorter message)
+}
+
+// c17eRun: a server receives one fragment of a message it will never get the rest of, then - under
+// the same message_seq - fragments of a real ClientHello that cover everything except the range the
+// abandoned fragment covered. The ClientHello has a hole: the server must not act on it.
+func c17eRun(c c17eCase) (sig, msg string) {
+	c2s, _ := c09DRecorded()
+	if len(c2s) == 0 || len(c2s[0]) < 13+12+20 {
+		return "harness", "no recorded ClientHello"
+	}
+	body := c2s[0][25:]
+	L := len(body)
+	at := L + c.ATotal
+	lo, hi := L-4, L
+	if c.ATotal < 0 {
+		lo, hi = at-4, at
+	}
+	if c.Front {
+		lo, hi = 0, 4
+	}
+	junk := []byte{0xde, 0xad, 0xbe, 0xef}
+	var dg [][]byte
+	dg = append(dg, c09Rec(22, 0, 0, c09Frag(byte(c.AType), at, 0, lo, hi-lo, junk)))
+	// the ClientHello without [lo, hi)
+	seq := uint64(1)
+	if lo > 0 {
+		mid := lo / 2
+		dg = append(dg, c09Rec(22, 0, seq, c09Frag(1, L, 0, 0, mid, body[:mid])))
+		seq++
+		dg = append(dg, c09Rec(22, 0, seq, c09Frag(1, L, 0, mid, lo-mid, body[mid:lo])))
+		seq++
+	}
+	if hi < L {
+		dg = append(dg, c09Rec(22, 0, seq, c09Frag(1, L, 0, hi, L-hi, body[hi:])))
+	}
+	_, scfg := vfBaseConfigs(ECC_SM4_GCM_SM3, false)
+	f := &c09DFeed{}
+	for _, d := range dg {
+		f.dgrams = append(f.dgrams, d)
+		f.from = append(f.from, false)
+	}
+	cn := Server(f, vfDAddr("10.0.0.2:2"), scfg)
+	var hsErr error
+	done := make(chan string, 1)
+	go func() { done <- vfRecover(func() { hsErr = cn.Handshake() }) }()
+	select {
+	case p := <-done:
+		if p != "" {
+			return "panic", p
+		}
+	case <-time.After(30 * time.Second):
+		return "spin-or-hang", "the server did not return on an exhausted transport"
+	}
+	if f.wrote != 0 {
+		return "acted-on-incomplete-message", fmt.Sprintf("a ClientHello of %d bytes arrived without bytes %d..%d (those offsets had only been covered by a fragment of another message - type %d, announced length %d - under the same message_seq); the server answered with %d datagrams (handshake result: %v)", L, lo, hi, c.AType, at, f.wrote, hsErr)
+	}
+	return "", ""
+}
+
+func TestVF_C17_StaleCoverage(t *testing.T) {
+	rec := vfRec("C17", "C17e-stale-coverage", "a server receives one 4-byte fragment of a message that is then abandoned (another type, or another announced length, same message_seq) and afterwards fragments of a real ClientHello covering everything but the range that fragment had covered; oracle: the server sends nothing (it may not act on a message with a hole), no panic, no hang; distinct = the case")
+	idx := 0
+	for _, at := range []int{20, 1, 11} {
+		for _, tot := range []int{0, 8, -8} {
+			for _, front := range []bool{false, true} {
+				if at == 1 && tot == 0 {
+					continue // the same message: its fragment legitimately counts
+				}
+				idx++
+				if !vfMine(idx) {
+					continue
+				}
+				c := c17eCase{AType: at, ATotal: tot, Front: front}
+				sig, msg := c17eRun(c)
+				if sig != "" {
+					rec.Violation(sig, c, "%s", msg)
+				}
+				rec.Eval(true, c, fmt.Sprintf("atype:%d", at))
+			}
+		}
+	}
+	rec.SetExhaustive(true, fmt.Sprintf("%d cases", idx))
 }
